@@ -58,7 +58,7 @@ def segments_into(prop, seg, fnd, cov, ck, what):
     events = 0
     for r in seg["runs"]:
         v = r["validation"]
-        if r.get("crashed"):
+        if r.get("crashed") and prop in ("C07", "C16", "C17"):
             fnd.add("process_died:" + what,
                     "the process running the %s segments died (rc %s) under %s/%s: %s" %
                     (what, r["rc"], r["hasher"], r["keyform"], r.get("stderr", "")[-300:]),
